@@ -372,6 +372,11 @@ class Online:
     try:
       s = gin.config_str()
       o = gin.operative_config_str()
+    except ImportError as e:
+      # under dynamic registration the string imports the module a Python-registered object claims to live in; generated probes claim
+      # modules that do not exist (exec'd code): the host's doing, not Gin's
+      self.count('roundtrips_skipped_object_claims_unimportable_module')
+      return
     except Exception as e:  # pylint: disable=broad-except
       self.check(False, 'online:config-str-raised', 'config_str()/operative_config_str() raised %r' % (e,))
       return
